@@ -1,5 +1,6 @@
 """C14 — ZonedDateTime arithmetic (wiring, constants, limit check, units)."""
 from ._std import *
+from ._std import check_must_call_on_success
 from ..rules import wiring, units
 from ..rules.common import OPT
 
@@ -70,4 +71,13 @@ def main(tier):
     n = units.report(run, fx, "C14")
     if n < 5:
         run.anchor_missing("R4.unit-mismatch", "zdt-functions", "only %d unit-typed functions in zoneddatetime.rs" % n)
+    # the start of a calendar day is GetStartOfDay (first instant of the day), never "midnight disambiguated"
+    rule = "R2.start-of-day-kernel"
+    run.rule(rule, "every success path of ZonedDateTime::start_of_day and ZonedDateTime::hours_in_day obtains the day's first "
+                   "instant from TimeZone::get_start_of_day (which handles a gap that swallows midnight); a compatible-"
+                   "disambiguated 00:00 is a different instant in such a gap")
+    CORE = "temporal_rs::builtins::core::"
+    for suffix in ("zoneddatetime::ZonedDateTime::start_of_day_with_provider", "zoneddatetime::ZonedDateTime::hours_in_day_with_provider"):
+        check_must_call_on_success(run, fx, fx["temporal_rs"].fn(CORE + suffix), ["TimeZone::get_start_of_day"], rule, suffix,
+                                   "the first instant of the day is not taken from GetStartOfDay")
     return run.finish(EXPLANATION)
